@@ -9,7 +9,11 @@ struct m_vec_Token *g_rs;
 struct m_map_string_string *g_fl;
 struct m_ScanResult *g_out;
 long g_main;
+_Bool g_yy_inc;                              /* ghost automaton of the yylex contract */
+unsigned long g_yy_unknown, g_yy_expected;  /* events seen by yylex */
+unsigned long g_cnt_unknown, g_cnt_expected; /* reports made (N12 hook) */
 #endif
+#define OLD(e) __CPROVER_old(e)
 #define PN(q) ((unsigned long)(q))
 #define FL_N (g_fl->_n)
 #define FL (g_fl->_d)
